@@ -180,23 +180,15 @@ structure PTok where
   opt : Bool
   deriving Repr
 
-/-- `extra` = how many more run-final hyphens than the last one may be fused: every following
-    append with an EMPTY text (a show inside a pending `/ActualText` scope, an empty fragment) leaves
-    the accumulator ending in the next hyphen, which the next line-wrap append fuses again. -/
+/-- `extra` = how many more run-final hyphens than the last one may be fused (layout path only:
+    an empty fragment behind the run leaves the text ending in the next hyphen, which the next
+    line-wrap merge fuses again; the flat path fuses only in front of a non-empty text). -/
 def runToks (mh : Bool) (run : List Nat) (extra : Nat := 0) : List PTok :=
   let n := run.length
   let trail := (run.reverse.takeWhile (· == HY)).length
   let optN := min trail (1 + extra)
   (List.range n).zip run |>.filterMap fun (i, c) =>
     if isWs c then none else some { c := c, opt := mh && n ≤ i + optN && c == HY }
-
-/-- number of appends with an empty text (other than `/ActualText` flushes, which never fuse)
-    directly after the current one -/
-def emptyAppsAhead : List Ev → Nat
-  | [] => 0
-  | .app k [] :: r => (if k == .none then 0 else 1) + emptyAppsAhead r
-  | .app _ _ :: _ => 0
-  | _ :: r => emptyAppsAhead r
 
 def emptyFragsAhead : List Ev → Nat
   | [] => 0
@@ -210,12 +202,10 @@ def flatPattern (mh : Bool) (noBudget : Bool) : List Ev → List PTok
   | [] => []
   | .app _ txt :: r =>
     let nextIsNl := match r.find? (fun e => match e with | .frag _ => false | _ => true) with
-      | some (.app .nl _) => true
+      | some (.app .nl t) => !t.isEmpty
       | _ => false
-    let extra := emptyAppsAhead r
-    let toks := runToks mh txt extra
-    -- certain fusion only claimed in the simple case (no chain of empty appends behind it)
-    let toks := if mh && noBudget && nextIsNl && endsWithHy txt && extra == 0 then toks.dropLast else toks
+    let toks := runToks mh txt
+    let toks := if mh && noBudget && nextIsNl && endsWithHy txt then toks.dropLast else toks
     toks ++ flatPattern mh noBudget r
   | _ :: r => flatPattern mh noBudget r
 
@@ -336,11 +326,10 @@ def handle (req impl : String) : String × String :=
           -- a conservation failure that the unchanged code's model reproduces exactly, on an input
           -- that exercises a listed quirk, is reported under that quirk's name
           let quirks := (if ref.nestedAT then ["nested-actualtext"] else []) ++
-                        (if ref.quotes then ["winansi-quotes"] else []) ++
                         (if ref.inherited then ["inherited-font-name"] else [])
           -- the same runs with EVERY run-final hyphen optional: a failure that disappears under
-          -- this pattern is explained by hyphen fusion alone (finding C11-F4: under
-          -- `merge_hyphenated` each line-wrap append with an empty text pops one more hyphen)
+          -- this pattern is explained by hyphen fusion alone (the shape of finding C11-F4, repaired:
+          -- each line-wrap append with an empty text popped one more hyphen)
           let spAll := ref.runs.reverse.flatMap (fun r => runToks o.mh r r.length)
           let chain := o.mh && matchMulti cut spAll a.x && (!o.pl || matchMulti cut spAll a.f)
           let lose (what : String) :=
